@@ -170,12 +170,28 @@ SetFloats(T, v, s) ==
      ELSE [i \in 1 .. Len(v[g]) |-> SetFloats(r.type, v[g][i], s + i)]]
 CoordObjs == UNION {{Obj(Kinds[t], SetFloats(Kinds[t], Gen(Kinds[t], s + t, 2, Pat("all", 0), TRUE), s)) : t \in 1 .. 7} : s \in 0 .. 7}
 CoordDocs == {OsmDocOf(NoHdr, <<o>>) : o \in CoordObjs}
+\* Sub-second instants (t4 = milliseconds, t5 = nanoseconds) on EVERY time-typed field of a kind at once: element timestamps,
+\* committed, update timestamps, changeset created / closed, discussion comment dates, user account creation.  withDates also
+\* rewrites the note dates (date_created, date_closed, comment dates): only JSON can carry their fraction - the notes XML
+\* layout `2006-01-02 15:04:05 UTC` has none, so the XML value spaces keep them at whole seconds.
+SubSecond == <<"t4", "t5">>
+RECURSIVE SetTimes(_, _, _, _)
+SetTimes(T, v, s, withDates) ==
+  [g \in DOMAIN v |->
+     LET r == RowOf(T, g)
+         x == SubSecond[1 + ((RowIndex(T, g) + s) % 2)] IN
+     IF r.type = "time" \/ (withDates /\ r.type = "date") THEN (IF r.card = "one" THEN x ELSE [i \in 1 .. Len(v[g]) |-> x])
+     ELSE IF IsScalar(r) \/ r.mode = "none" THEN v[g]
+     ELSE IF r.card = "one" THEN SetTimes(r.type, v[g], s, withDates)
+     ELSE [i \in 1 .. Len(v[g]) |-> SetTimes(r.type, v[g][i], s + i, withDates)]]
+TimeObjs(withDates) == UNION {{Obj(Kinds[t], SetTimes(Kinds[t], Gen(Kinds[t], s + t, 2, Pat("all", 0), TRUE), s, withDates)) : t \in 2 .. 7} : s \in 0 .. 1}
+TimeDocs == {OsmDocOf(NoHdr, <<o>>) : o \in TimeObjs(FALSE)}
 \* augmented-diff actions whose old / new parts are full documents (bounds, every element kind, changesets, notes, users)
 FullPartDiffDocs ==
   {DiffDocOf(<<Act("=modify", << >>, << AllKindsDoc(1) >>, << AllKindsDoc(4) >>)>>, << >>),
    DiffDocOf(<<Act("=delete", << >>, << [i \in 1 .. 7 |-> AllKindsDoc(2)[Scrambled[i]]] >>, << >>),
                Act("=create", <<Full("Way", 3)>>, << >>, << <<Full("Bounds", 5), Small("Changeset", 6), Small("Note", 7), Small("User", 8)>> >>)>>, << >>)}
-Docs == OsmDocs \cup ChangeDocs \cup DiffDocs \cup ListPairDocs \cup SharedFieldDocs \cup CoordDocs \cup FullPartDiffDocs
+Docs == OsmDocs \cup ChangeDocs \cup DiffDocs \cup ListPairDocs \cup SharedFieldDocs \cup CoordDocs \cup FullPartDiffDocs \cup TimeDocs
 DocCase(d) == [doc |-> d, tree |-> DocTree(d), unk |-> <<UnknownAttr, UnknownElem>>]
 
 (* ---- Go-shaped values (C04 / C05) ---- *)
@@ -287,7 +303,12 @@ JsonAfterRejectCases ==
   {WithPre(JDoc(Vers[3], NoHdr, AfterItems), <<BadDocOf(e)>>) : e \in BadElems}
   \cup {WithPre([kind |-> "rt", root |-> "OSM", v |-> WholeOSM(Hdr({"Generator"}), AfterItems)], <<BadDocOf(e)>>) : e \in BadElems}
   \cup {WithPre(JDoc(Vers[2], NoHdr, <<Mini("Node", 1), Full("Node", 2)>>), <<BadDocOf(e), JObj(<< <<K("elements"), JStr("s1")>> >>)>>) : e \in BadElems}
-JsonCases == RtCases \cup JsonDocCases \cup JsonCtlCases \cup JsonIdCases \cup JsonNestedCases \cup JsonAfterRejectCases
+\* osmjson carries every instant as an RFC 3339 string with its fraction: all time AND date fields sub-second, both directions
+JsonTimeCases ==
+  {[kind |-> "rt", root |-> o.T, v |-> o.f] : o \in TimeObjs(TRUE)}
+  \cup {[kind |-> "rt", root |-> "OSM", v |-> WholeOSM(NoHdr, <<o>>)] : o \in TimeObjs(TRUE)}
+  \cup {JDoc(Vers[3], NoHdr, <<o>>) : o \in TimeObjs(TRUE)}
+JsonCases == RtCases \cup JsonDocCases \cup JsonCtlCases \cup JsonIdCases \cup JsonNestedCases \cup JsonAfterRejectCases \cup JsonTimeCases
 
 VARIABLE case
 DInit == case \in {DocCase(d) : d \in Docs}
